@@ -333,3 +333,80 @@ theorem steps_originFail {dec : Dec} {icfg : ICfg} {reqHdrs : HdrMap} {o m : Byt
 
 end Pipeline
 end Cors
+
+namespace Cors
+open Gen Serve
+namespace Pipeline
+
+/-- The five headers the pipeline can put into the buffer. -/
+def isPipelineKey (k : Bytes) : Prop :=
+  k = Facts.headers_ACAO ∨ k = Facts.headers_ACAC ∨ k = Facts.headers_ACAPN ∨ k = Facts.headers_ACAM ∨ k = Facts.headers_ACAH
+
+theorem origin_step_frame {dec : Dec} {icfg : ICfg} {b b' : Buf} {o : Bytes}
+    (h : processOriginForPreflight dec icfg b o = some b') (k : Bytes) (hk : ¬ isPipelineKey k) : b' k = b k := by
+  have h1 : k ≠ Facts.headers_ACAO := fun e => hk (Or.inl e)
+  have h2 : k ≠ Facts.headers_ACAC := fun e => hk (Or.inr (Or.inl e))
+  unfold processOriginForPreflight at h
+  cases c1 : dec.parses o <;> cases c2 : icfg.credentialed <;> cases c3 : icfg.tree.isEmpty <;> cases c4 : dec.allowed o <;>
+    simp only [c1, c2, c3, c4] at h <;> simp at h <;> subst h <;> simp [HdrMap.assign, h1, h2]
+
+theorem pna_step_frame {icfg : ICfg} {b b' : Buf} {reqHdrs : HdrMap}
+    (h : processACRPN icfg b reqHdrs = some b') (k : Bytes) (hk : ¬ isPipelineKey k) : b' k = b k := by
+  have h1 : k ≠ Facts.headers_ACAPN := fun e => hk (Or.inr (Or.inr (Or.inl e)))
+  unfold processACRPN at h
+  cases hf : reqHdrs.first Facts.headers_ACRPN with
+  | none => simp [hf] at h; subst h; rfl
+  | some v =>
+    simp only [hf] at h
+    split at h
+    · simp at h; subst h; rfl
+    · split at h
+      · simp at h; subst h; simp [HdrMap.assign, h1]
+      · cases h
+
+theorem method_step_frame {icfg : ICfg} {b b' : Buf} {m : Bytes}
+    (h : processACRM icfg b m = some b') (k : Bytes) (hk : ¬ isPipelineKey k) : b' k = b k := by
+  have h1 : k ≠ Facts.headers_ACAM := fun e => hk (Or.inr (Or.inr (Or.inr (Or.inl e))))
+  unfold processACRM at h
+  cases c1 : Methods.isSafelisted m <;> cases c2 : icfg.allowAnyMethod <;> cases c3 : icfg.credentialed <;>
+    cases c4 : icfg.allowedMethods.contains m <;> simp only [c1, c2, c3, c4] at h <;> simp at h <;> subst h <;>
+    simp [HdrMap.assign, h1]
+
+theorem header_step_frame {dec : Dec} {icfg : ICfg} {b b' : Buf} {reqHdrs : HdrMap} {debug : Bool}
+    (h : processACRH dec icfg b reqHdrs debug = some b') (k : Bytes) (hk : ¬ isPipelineKey k) : b' k = b k := by
+  have h1 : k ≠ Facts.headers_ACAH := fun e => hk (Or.inr (Or.inr (Or.inr (Or.inr e))))
+  unfold processACRH at h
+  cases hf : reqHdrs Facts.headers_ACRH with
+  | none => simp [hf] at h; subst h; rfl
+  | some acrh =>
+    simp only [hf] at h
+    cases c1 : icfg.asteriskReqHdrs <;> cases c2 : icfg.credentialed <;> cases c3 : icfg.allowAuthorization <;>
+      cases c4 : debug <;> cases c5 : (icfg.allowedReqHdrs.size == 0) <;> cases c6 : dec.acrhOK acrh <;>
+      cases c7 : icfg.acah.isEmpty <;> simp only [c1, c2, c3, c4, c5, c6, c7] at h <;> simp at h <;> subst h <;>
+      simp [HdrMap.assign, h1]
+
+/-- Whatever the outcome, the buffer holds nothing but the five pipeline headers. -/
+theorem steps_frame (dec : Dec) (icfg : ICfg) (reqHdrs : HdrMap) (o m : Bytes) (dbg : Bool) (k : Bytes)
+    (hk : ¬ isPipelineKey k) : (Steps.buf (preflightSteps dec icfg reqHdrs o m dbg)) k = none := by
+  unfold preflightSteps
+  cases h1 : processOriginForPreflight dec icfg HdrMap.empty o with
+  | none => rfl
+  | some b1 =>
+    have f1 : b1 k = none := origin_step_frame h1 k hk
+    simp only []
+    cases h2 : processACRPN icfg b1 reqHdrs with
+    | none => exact f1
+    | some b2 =>
+      have f2 : b2 k = none := by rw [pna_step_frame h2 k hk]; exact f1
+      simp only []
+      cases h3 : processACRM icfg b2 m with
+      | none => exact f2
+      | some b3 =>
+        have f3 : b3 k = none := by rw [method_step_frame h3 k hk]; exact f2
+        simp only []
+        cases h4 : processACRH dec icfg b3 reqHdrs dbg with
+        | none => exact f3
+        | some b4 => exact (by rw [header_step_frame h4 k hk]; exact f3 : b4 k = none)
+
+end Pipeline
+end Cors
